@@ -4,6 +4,8 @@ package interp
 
 import (
 	"fmt"
+	"os"
+	"strconv"
 	"sort"
 	"strings"
 	"sync"
@@ -332,7 +334,11 @@ func (p *Path) decide(c *Term) bool {
 
 func (p *Path) enqueue(trail []trailEntry, m Model) {
 	atomic.AddInt64(&p.h.pending, 1)
-	theQueue.push(&Job{h: p.h, trail: trail, model: m})
+	c := make(Model, len(m))
+	for k, v := range m {
+		c[k] = v
+	}
+	theQueue.push(&Job{h: p.h, trail: trail, model: c})
 }
 
 func (p *Path) inconclusive(msg string) {
@@ -347,6 +353,12 @@ func (p *Path) inconclusive(msg string) {
 func (p *Path) choose(n int, name string) int {
 	if n <= 1 {
 		return 0
+	}
+	if name != "" && forcedChoices != nil {
+		if v, ok := forcedChoices[name]; ok && v < n {
+			p.inputs = append(p.inputs, InputRec{Name: name, Kind: "choice", val: uint64(v)})
+			return v
+		}
 	}
 	var v uint64
 	if p.pos < len(p.trail) {
@@ -601,3 +613,18 @@ func (q *jobQueue) finish() {
 	}
 	q.mu.Unlock()
 }
+
+// forcedChoices (debugging aid, env ZSYM_FIX="name=value,...") pins named choices instead of forking.
+var forcedChoices = func() map[string]int {
+	s := os.Getenv("ZSYM_FIX")
+	if s == "" {
+		return nil
+	}
+	m := map[string]int{}
+	for _, kv := range strings.Split(s, ",") {
+		k, v, _ := strings.Cut(kv, "=")
+		n, _ := strconv.Atoi(v)
+		m[k] = n
+	}
+	return m
+}()
